@@ -80,7 +80,7 @@ def run(ctx: common.Run):
     for i in range(n):
         mode = rng.choice(['qubit'] * 5 + ['qudit'] * 2 + ['classical'] * 2)
         circuit, qids = gen.random_unitary_circuit(
-            cirq, rng, max_wires=5 if mode != 'qudit' else 4, qudits=(mode == 'qudit'), max_ops=10, classical=(mode == 'classical')
+            cirq, rng, max_wires=5 if mode != 'qudit' else 4, qudits=(mode == 'qudit'), max_ops=10, classical=(mode == 'classical'), phases=True
         )
         check_circuit(ctx, cirq, rng, circuit, qids, mode)
         if mode == 'qubit' and i % 2 == 0:
@@ -166,7 +166,13 @@ def check_circuit(ctx, cirq, rng, circuit, qids, mode):
         if mode == 'classical' and name == 'int':
             calls['ClassicalStateSimulator'] = (lambda: classical_vector(cirq, circuit, order, init_arg, dims), 1e-9)
         for cname, (fn, tol) in calls.items():
-            got = fn()
+            try:
+                got = fn()
+            except (ValueError, TypeError, NotImplementedError, IndexError) as e:
+                ctx.report_witness(f'entry:{cname}:raises', f'{cname} raises {type(e).__name__} on a unitary circuit: {str(e)[:100]}',
+                                   {'lines': [{'circuit': repr(circuit), 'order': [repr(q) for q in order], 'init': name}], 'impl_out': [str(e)[:300]], 'spec_out': ['the final state'],
+                                    'theorem_or_correspondence': 'C01_interpreter_is_ordered_product (T2)'})
+                continue
             ctx.count('entry', cname.split('[')[0] + ('.' + cname.split('.')[-1] if '.' in cname and '[' in cname else ''))
             if cname.endswith('.moment_steps'):
                 if len(got) != len(states) or not all(vec_close(g, s, tol) for g, s in zip(got, states)):
